@@ -344,6 +344,9 @@ class EnvSim:
             if op is not None:
                 op["sid"] = sid
         self.next_sid = max(self.next_sid, sid + 1)
+        if sid in self.states:
+            # an op that produces two states (e.g. two resets) re-uses its id
+            self.state_sids = [x for x in self.state_sids if x != sid]
         self.states[sid] = state
         self.state_sids.append(sid)
         if len(self.state_sids) > 12:
@@ -797,6 +800,8 @@ class EnvSim:
             inter = []
             for _ in range(fl.randint(1, 3)):
                 src = fl.choice(self.state_sids)
+                if src not in self.states:
+                    continue
                 st2 = read_status(self.states[src], self.cfg)
                 k2 = self._pick_action(wl, swarm, st2)
                 a2 = self._act_of_key(k2)
@@ -846,7 +851,10 @@ class EnvSim:
         src = "cur"
         if self.state_sids and wl.random() < 0.5:
             src = wl.choice(self.state_sids)
-        state = self.env.current_state if src == "cur" else self.states[src]
+        state = self.env.current_state if src == "cur" else \
+            self.states.get(src)
+        if state is None:
+            src, state = "cur", self.env.current_state
         status = read_status(state, self.cfg)
         k = self._pick_action(wl, swarm, status)
         a = self._act_of_key(k)
